@@ -63,6 +63,11 @@ def gen_case(D):
     if c['timeout'] is None:
         c['attempts'] = [a if a[0] != 'never' else ['err', 'boom']
                          for a in c['attempts']]
+    elif D.bool(0.35):
+        # with a timeout: an action that never answers, so that only the
+        # timer can end the attempt (together with whatever other policy
+        # was drawn: wait-before, retry, pause-before...)
+        c['attempts'][D.int(0, 1)] = ['never']
     return c
 
 
